@@ -48,17 +48,32 @@ def run(cmd, cwd=None, env=None, timeout=None, stdin=None, stdout=None):
 
 
 class Lock:
+    """flock on build/<name>.lock, re-entrant within this process (a check holds "lake" from its pre-steps, which regenerate
+    lean/OW/Gen/*.lean from the tree under test, to the end of its Lean build and axiom audit, so that a concurrent check of ANOTHER
+    tree (OW_REPO experiments) cannot swap the generated files in between; the steps inside take the same lock again)."""
+    _held = {}
+
     def __init__(self, name):
         os.makedirs(BUILD, exist_ok=True)
+        self.name = name
         self.path = os.path.join(BUILD, name + ".lock")
 
     def __enter__(self):
-        self.f = open(self.path, "w")
-        fcntl.flock(self.f, fcntl.LOCK_EX)
+        h = Lock._held.get(self.name)
+        if h:
+            h[1] += 1
+            return
+        f = open(self.path, "w")
+        fcntl.flock(f, fcntl.LOCK_EX)
+        Lock._held[self.name] = [f, 1]
 
     def __exit__(self, *a):
-        fcntl.flock(self.f, fcntl.LOCK_UN)
-        self.f.close()
+        h = Lock._held[self.name]
+        h[1] -= 1
+        if h[1] == 0:
+            fcntl.flock(h[0], fcntl.LOCK_UN)
+            h[0].close()
+            del Lock._held[self.name]
 
 
 # ---------------------------------------------------------------------------------------------
@@ -407,7 +422,16 @@ class Check:
 
         ctx = {"workdir": workdir, "tier": tier, "seed": seed, "harness": harness, "info": info}
 
-        # 2. tie A / property-specific pre-steps (may regenerate OW/Gen/*.lean)
+        # 2. tie A / property-specific pre-steps (may regenerate OW/Gen/*.lean) and 3. proofs: ONE critical section
+        lean_section = Lock("lake")
+        lean_section.__enter__()
+        try:
+            return self._execute_locked(tier, seed, replay, t_start, pid, workdir, problems, info, harness, ctx, lean_section)
+        finally:
+            if lean_section is not None and Lock._held.get("lake") and getattr(lean_section, "_open", True):
+                lean_section.__exit__()
+
+    def _execute_locked(self, tier, seed, replay, t_start, pid, workdir, problems, info, harness, ctx, lean_section):
         for step in self.pre_steps:
             problems += step(self, ctx) or []
 
@@ -446,6 +470,10 @@ class Check:
                     info.setdefault("leanchecker", {})[mod] = "ok" if r.returncode == 0 else (r.stdout + r.stderr)[-500:]
                     if r.returncode != 0:
                         problems.append({"kind": "proof-obligation", "name": "leanchecker " + mod, "detail": (r.stdout + r.stderr)[-500:]})
+
+        # the Lean side is done: release the lock before the (long) family runs
+        lean_section.__exit__()
+        lean_section._open = False
 
         # 4+5. correspondence and oracle
         fam_results = []
